@@ -121,7 +121,17 @@ func timerNotesItsExpiryBeforeTheMark(c *Ctx, rule string) {
 		}
 	}
 	n := 0
+	// the timer callbacks and the helpers of the package they call (a guard helper extracted from the callback is the same code)
+	var bodies []*ssa.Function
 	for _, a := range fn.AnonFuncs {
+		for f := range staticReach([]*ssa.Function{a}, "pkg/proxy") {
+			if f == a || (f.Name() != "onResponseTimeout" && f.Name() != "onPerReqTimeout" && !strings.HasPrefix(f.Name(), "on")) {
+				bodies = append(bodies, f)
+			}
+		}
+	}
+	sort.Slice(bodies, func(i, j int) bool { return bodies[i].String() < bodies[j].String() })
+	for _, a := range bodies {
 		for _, cas := range callsIn(a, false, func(cc *ssa.CallCommon) bool {
 			if !strings.HasSuffix(calleeName(cc), "atomic.CompareAndSwapUint32") {
 				return false
@@ -288,7 +298,7 @@ func c10GoAwayRememberedApartFromTheState(c *Ctx) {
 // Host.
 func c17XdsHeaderActionsConverted(c *Ctx) {
 	const rule = "C17.R28"
-	c.Rule(rule, "xds: headers to remove / to add on route configuration, virtual host and route, and host_rewrite_literal are converted", 7)
+	c.Rule(rule, "xds: headers to remove / to add on route configuration, virtual host and route, host_rewrite_literal and host_rewrite_header are converted", 8)
 	pkg := "istio/istio1106/xds/conv"
 	want := []struct{ typ, field, getter string }{
 		{"RouterConfigurationConfig", "RequestHeadersToRemove", "GetRequestHeadersToRemove"},
@@ -298,6 +308,7 @@ func c17XdsHeaderActionsConverted(c *Ctx) {
 		{"RouterActionConfig", "ResponseHeadersToAdd", "GetResponseHeadersToAdd"},
 		{"RouterActionConfig", "ResponseHeadersToRemove", "GetResponseHeadersToRemove"},
 		{"RouterActionConfig", "HostRewrite", "GetHostRewriteLiteral"},
+		{"RouterActionConfig", "AutoHostRewriteHeader", "GetHostRewriteHeader"}, // S319, repair 148
 	}
 	fns := c.PkgFuncs(pkg)
 	if len(fns) == 0 {
